@@ -12,7 +12,7 @@ import (
 func init() {
 	register("C20", PropCheck{
 		Title:      "Session end restarts cleanly; termination stays blocked",
-		Explain:    "Structural clauses: (R1) the dead-code check sets TERMINATE exactly on the 'not reading input' (READIN unset) edge, and Vm.Run consults it when code runs out; (R2) the engine marks a graceful end (exiting=true) only behind 'no code left' AND the DIRTY flag test, Flush runs the engine reset on every non-error path on which exiting may be set, and the reset unwinds State and cache in pairs (Up/Pop), restarts the state and clears TERMINATE and DIRTY on every success path; (R3) when no code is pending, init injects MOVE <configured root> as the code to run; (R4) blocked stays blocked: in exec the remaining code is only recorded behind the TERMINATE-unset edge after the run (a terminated run is never classified as a graceful end), Run dispatches nothing without passing the TERMINATE gate, and constant resets of TERMINATE exist only behind Run's own test and in the session-restart path; (R5) the reset path writes flag bytes only as 'byte 0 := 0' or through the constant resets, so client flags (8 and up) are kept.",
+		Explain:    "Structural clauses: (R1) the dead-code check sets TERMINATE exactly on the 'not reading input' (READIN unset) edge, and Vm.Run consults it when code runs out; (R2) the engine marks a graceful end (exiting=true) only behind 'no code left' AND the DIRTY flag test, Flush runs the engine reset on every non-error path on which exiting may be set, and the reset unwinds State and cache in pairs (Up/Pop), restarts the state and clears TERMINATE and DIRTY on every success path; (R3) when no code is pending, init injects MOVE <configured root> as the code to run; (R4) blocked stays blocked: in exec the remaining code is only recorded behind the TERMINATE-unset edge after the run (a terminated run is never classified as a graceful end), Run dispatches nothing without passing the TERMINATE gate, and constant resets of TERMINATE exist only behind Run's own test and in the session-restart path; (R5) the reset path writes flag bytes only as 'byte 0 := 0' or through the constant resets, so client flags (8 and up) are kept; (R6) Finish stores what the request left: every return of Finish passes Persister.Save, the initd==false edge or the no-persister edge - no other condition may skip the save, in particular not one that holds exactly after the unwind of a graceful end (added after seeded change C20-F).",
 		NotDecided: "what later requests output over histories and back ends; that the restart point equals the application's intended entry node (it is the configured root).",
 		Run:        runC20,
 	})
@@ -23,6 +23,7 @@ func runC20(w *core.World, r *core.Report) {
 	r.Rule("R2", "graceful end: exiting only behind no-code AND DIRTY; Flush resets whenever exiting; reset unwinds in pairs and clears TERMINATE, DIRTY")
 	r.Rule("R3", "init injects MOVE <cfg.Root> when no code is pending")
 	r.Rule("R4", "blocked stays blocked: TERMINATE test between run and setCode; gate in Run; who may clear TERMINATE")
+	r.Rule("R6", "Finish saves whenever the engine was initialised and has a persister: every success return passes Persister.Save, the initd==false edge or the no-persister edge")
 	r.Rule("R5", "the reset path keeps client flags")
 
 	fTerm, ok1 := constOf(w, r, "state", "FLAG_TERMINATE")
@@ -319,6 +320,30 @@ func runC20(w *core.World, r *core.Report) {
 			}
 		}
 		r.OK("R5", "reset path scanned for flag-byte writes", resetFn.Pos(), fmt.Sprintf("%d functions, %d direct stores", len(fns), n))
+	}
+	// ---- R6 -----------------------------------------------------------------------------------
+	if fin := anchor(w, r, "engine", "(*DefaultEngine).Finish"); fin != nil {
+		cut := core.NewCut()
+		nsave := 0
+		for _, c := range core.CallsTo(fin, "persist.(*Persister).Save") {
+			cut.AddInstr(c.(ssa.Instruction))
+			nsave++
+		}
+		for _, in := range allInstrs(fin) {
+			if v, ok := in.(ssa.Value); ok {
+				if _, f, ok := core.LoadedField(v); ok && f == "initd" {
+					cut.AddEdge(core.EdgesWhere(v, false)...)
+				}
+			}
+			if bo, ok := in.(*ssa.BinOp); ok && (bo.Op == token.EQL || bo.Op == token.NEQ) && core.IsNilConst(bo.Y) {
+				if _, f, ok := core.LoadedField(bo.X); ok && f == "pe" {
+					cut.AddEdge(core.EdgesWhere(bo, bo.Op == token.EQL)...)
+				}
+			}
+		}
+		hit, path := core.Reach(core.Entry(fin), core.IsReturn, cut)
+		r.Check(hit == nil && nsave > 0, "R6", "engine.(*DefaultEngine).Finish: saves on every path of an initialised engine with a persister", fin.Pos(), "every return passes Save, initd==false or pe==nil",
+			"Finish can return without saving although the engine ran and has a persister: the restart written by a graceful end (or any other progress) is not stored, and the next request resumes the old position: "+w.PathString(path))
 	}
 }
 
